@@ -117,6 +117,11 @@ Theorem C15_reopen : forall st rs, Inv st rs ->
   exists st', reopen fx_all st = Some st' /\ Inv st' (live rs) /\ st_freeSize st' = 0.
 Proof. exact reopen_inv. Qed.
 
+(* InvalidateChangedStreams returns exactly the requested streams that were cached *)
+Theorem C15_invalidate_reports_cached : forall ids st id,
+  In id (snd (invalidate fx_all st ids)) <-> In id ids /\ contains st id = true.
+Proof. exact (invalidate_reports_cached fx_all). Qed.
+
 (* ---------------- 4. torn tail ---------------- *)
 (* histories may contain crashes at any byte offset: no call ever fails and the invariant holds *)
 Theorem C15_history_with_crashes_never_fails : forall ops,
